@@ -59,10 +59,12 @@ func init() {
 		mutation{"digest-length-unchecked", "tun/server/keyless_rpc.go", "	if len(req.GetDigest()) != opts.HashFunc().Size() {\n		return nil, twirp.InvalidArgumentError(\"digest\", \"invalid digest length\")\n	}\n", "", "sign-gate"},
 		mutation{"default-algo-sha256", "tun/server/keyless_rpc.go", "	default:\n		return nil, twirp.InvalidArgumentError(\"algo\", \"unsupported hash algorithm\")", "	default:\n		opts = crypto.SHA256", "sign-gate"},
 		mutation{"ttl-ignores-expiry", "tun/server/keyless_cache.go", "	if remaining < keylessPositiveTTL {\n		return remaining\n	}\n", "", "ttl"},
+		mutation{"ttl-leaf-only", "tun/server/keyless_cache.go", "		if parsed, err := x509.ParseCertificate(cert.Certificate[0]); err == nil {\n			leaf = parsed\n		}", "		if _, err := x509.ParseCertificate(cert.Certificate[0]); err != nil {\n			leaf = nil\n		}", "ttl"},
 		mutation{"ttl-no-skew", "tun/server/keyless_cache.go", "	expiry := leaf.NotAfter.Add(-keylessExpirySkew)", "	expiry := leaf.NotAfter", "ttl"},
 		mutation{"algo-mapping-swapped", "tun/server/keyless_rpc.go", "	case protocol.KeylessSignRequest_SHA384:\n		opts = crypto.SHA384", "	case protocol.KeylessSignRequest_SHA384:\n		opts = crypto.SHA512", "sign-gate"},
 	)
 	addSelfTests("C51",
+		mutation{"address-not-recorded", "spec/chord/chord.go", "		seen[succ.Identity().GetAddress()] = true\n		succList = append(succList, succ)", "		succList = append(succList, succ)", "offer-bound"},
 		mutation{"offer-all-successors", "tun/server/client_rpc.go", "	vnodes := chord.MakeSuccListByAddress(s.Chord, successors, tun.NumRedundantLinks)", "	vnodes := chord.MakeSuccListByAddress(s.Chord, successors, chord.ExtendedSuccessorEntries+1)", "offer-bound"},
 		mutation{"dedup-by-id", "tun/server/client_rpc.go", "	vnodes := chord.MakeSuccListByAddress(s.Chord, successors, tun.NumRedundantLinks)", "	vnodes := chord.MakeSuccListByID(s.Chord, successors, tun.NumRedundantLinks)", "offer-bound"},
 		mutation{"partial-result-on-error", "tun/server/client_rpc.go", "	servers, errors := promise.All(lookupCtx, lookupJobs...)\n	for _, err := range errors {\n		if err != nil {\n			return nil, err\n		}\n	}\n\n	return &protocol.GetNodesResponse{", "	servers, errors := promise.All(lookupCtx, lookupJobs...)\n	_ = errors\n\n	return &protocol.GetNodesResponse{", "offer-errors"},
@@ -82,6 +84,19 @@ func successReturns(fn *Fn) []*ast.ReturnStmt {
 		}
 		if len(r.Results) == 0 {
 			if named != nil {
+				// a named error result holding a freshly constructed error is a failure exit
+				if call, _, ok := fs.BindingOf(named); ok {
+					switch fn.CallKey(call) {
+					case "fmt.Errorf", "errors.New":
+						continue
+					}
+					if isTwirpErr(fn, call) {
+						continue
+					}
+					if fs.Has(func(fa *Fact) bool { return fa.Kind == FCallFail && fa.Call == call }) {
+						continue
+					}
+				}
 				out = append(out, r)
 			}
 			continue
@@ -942,6 +957,31 @@ func runC30(c *Ctx) {
 		return true
 	})
 	c.Ob("ttl", "computeKeylessTTL#skew-and-now", remDef.Pos(), okSkew && okNow, "the skew constant is subtracted from NotAfter and the current time is the parameter")
+	// the leaf whose NotAfter is used: cert.Leaf, or the parsed first chain element when Leaf is unset
+	var leafVar *types.Var
+	ast.Inspect(tt.Body, func(n ast.Node) bool {
+		if se, ok := n.(*ast.SelectorExpr); ok && se.Sel.Name == "NotAfter" {
+			leafVar = tt.varOf(se.X)
+		}
+		return true
+	})
+	okLeaf, okParse := false, false
+	if leafVar != nil {
+		for _, d := range tt.defsOf(leafVar) {
+			pv := tt.enclosing(d.rhs).Prov(d.rhs)
+			if pv == "param#0.Leaf" {
+				okLeaf = true
+			}
+			if strings.HasPrefix(pv, "call:crypto/x509.ParseCertificate()") {
+				for _, call := range tt.CallsTo(true, "crypto/x509.ParseCertificate") {
+					if tt.Prov(call.Args[0]) == "param#0.Certificate[const:0]" {
+						okParse = true
+					}
+				}
+			}
+		}
+	}
+	c.Ob("ttl", "computeKeylessTTL#leaf-from-Leaf-or-parsed-chain", tt.Decl.Pos(), okLeaf && okParse, "the expiry is read from cert.Leaf, or from the parsed first chain certificate when Leaf is unset (a tls.Certificate built from PEM/DER has no Leaf); otherwise such a certificate is cached for the full positive TTL regardless of its expiry")
 	pc, _ := c.P("tun/server").Types.Scope().Lookup("keylessPositiveTTL").(*types.Const)
 	if pc == nil {
 		c.Failf("anchor unresolved: keylessPositiveTTL")
@@ -992,6 +1032,9 @@ func runC51(c *Ctx) {
 		c.Ob("offer-bound", "GetNodes#bounded-by-NumRedundantLinks", call.Pos(), v == "3" && gn.Prov(call.Args[0]) == "recv.Chord" && strings.HasSuffix(gn.Prov(call.Args[1]), ".GetSuccessors()#0"), "at most NumRedundantLinks (3) entries, starting with this node; bound found: "+v)
 		requireAt(c, "offer-bound", "GetNodes#authenticated", gn, call, "only authenticated clients are offered endpoints", reqCallOK(authKeys...))
 	}
+	// the list itself is well-formed (the C12 obligations of the address variant)
+	succListObligations(c, "offer-bound", "MakeSuccListByAddress")
+
 	// jobs: one per element of that list
 	okJobs := false
 	ast.Inspect(gn.Body, func(n ast.Node) bool {
